@@ -141,7 +141,8 @@ func (p *parser) value(t reflect.Type) reflect.Value {
 		if err != nil {
 			panic(err)
 		}
-		v.SetString(string(b))
+		// a private heap copy: string(b) of a single byte points into a table shared by the whole process
+		v.SetString(strings.Clone(string(b)))
 	case reflect.Ptr:
 		if p.hasPrefix("nil") {
 			p.i += 3
